@@ -143,3 +143,85 @@ func init() {
 		return B.Ite(eq, B.Int64(0), B.Ite(lt, B.Int64(-1), B.Int64(1)))
 	}))
 }
+
+func init() {
+	// time.Local is taken to be UTC (process TZ unset): stated assumption of every claim that reaches it.
+	reg("(*time.Location).get", func(in *Interp, fn *ssa.Function, a []Value) (Value, *iPanic) {
+		p := a[0].(Pointer)
+		tp := in.Prog.ImportedPackage("time")
+		utc := Pointer{O: in.globalObj(tp.Var("utcLoc"))}
+		if p.O == nil {
+			return utc, nil
+		}
+		if p.O == in.globalObj(tp.Var("localLoc")) {
+			return utc, nil
+		}
+		return p, nil
+	})
+	// Truncate: t - ((sec*1e9+nsec) mod d), relative to the zero Time (year 1), as in time.div.
+	reg("(time.Time).Truncate", func(in *Interp, fn *ssa.Function, a []Value) (Value, *iPanic) {
+		B := in.B
+		wall, ext, loc := timeParts(a[0])
+		d := a[1].(*sym.Term)
+		if !d.IsConst() {
+			panic(unsupported{"Time.Truncate with symbolic duration"})
+		}
+		if d.I.Sign() <= 0 {
+			return a[0], nil
+		}
+		g := B.Int64(nsPerSec)
+		tot := B.Add(B.Mul(ext, g), wall)
+		r := B.Mod(tot, d)
+		nt := B.Sub(tot, r)
+		return &StructV{F: []Value{B.Mod(nt, g), B.Div(nt, g), loc}}, nil
+	})
+}
+
+// ---- regexp on concrete strings: native call-out
+func init() {
+	reg("regexp.MustCompile", func(in *Interp, fn *ssa.Function, a []Value) (Value, *iPanic) {
+		re, err := regexpCompile(in.argStr(a[0]))
+		if err != nil {
+			return nil, in.mkPanic("explicit", "regexp: Compile: "+err.Error())
+		}
+		in.nextObj++
+		o := &Obj{ID: in.nextObj, Label: "regexp", Native: re}
+		return Pointer{O: o}, nil
+	})
+	reg("regexp.Compile", func(in *Interp, fn *ssa.Function, a []Value) (Value, *iPanic) {
+		re, err := regexpCompile(in.argStr(a[0]))
+		if err != nil {
+			return Tuple{Pointer{}, in.mkError(err.Error())}, nil
+		}
+		in.nextObj++
+		o := &Obj{ID: in.nextObj, Label: "regexp", Native: re}
+		return Tuple{Pointer{O: o}, IfaceV{}}, nil
+	})
+	reg("regexp.MatchString", func(in *Interp, fn *ssa.Function, a []Value) (Value, *iPanic) {
+		re, err := regexpCompile(in.argStr(a[0]))
+		if err != nil {
+			return Tuple{in.B.False, in.mkError(err.Error())}, nil
+		}
+		return Tuple{in.B.Bool(re.MatchString(in.argStr(a[1]))), IfaceV{}}, nil
+	})
+	reg("(*regexp.Regexp).MatchString", func(in *Interp, fn *ssa.Function, a []Value) (Value, *iPanic) {
+		re := a[0].(Pointer).O.Native.(nativeRegexp)
+		return in.B.Bool(re.MatchString(in.argStr(a[1]))), nil
+	})
+	reg("(*regexp.Regexp).FindStringSubmatch", func(in *Interp, fn *ssa.Function, a []Value) (Value, *iPanic) {
+		re := a[0].(Pointer).O.Native.(nativeRegexp)
+		return in.stringSlice(re.FindStringSubmatch(in.argStr(a[1]))), nil
+	})
+}
+
+func (in *Interp) stringSlice(ss []string) Value {
+	if ss == nil {
+		return SliceV{Len: in.B.Int64(0), Cap: in.B.Int64(0)}
+	}
+	o := in.newArrayObj(types.Typ[types.String], len(ss), "[]string")
+	for i, s := range ss {
+		o.Slots[i] = in.mkString(s)
+	}
+	n := in.B.Int64(int64(len(ss)))
+	return SliceV{O: o, Len: n, Cap: n}
+}
